@@ -329,17 +329,19 @@ def acctItem (P : Prim) (a : Acct) : Item :=
 
 def encAcct (P : Prim) (a : Acct) : Bytes := enc (acctItem P a)
 
+def loadStorage (P : Prim) (db : Db) (root : Bytes) : Option Content := if root = P.root [] then some [] else aget db.storT root
+def loadCode (P : Prim) (db : Db) (ch : Bytes) : Option Bytes := if ch = P.H [] then some [] else aget db.blobs ch
+def loadDlgs (db : Db) (dh : Bytes) : Option (List Bytes) :=
+  if dh = [] then some [] else (aget db.blobs dh).bind (fun bl => (dec bl).bind bytesListOfItem)
+
 /-- decode an account leaf and resolve storage trie, code and delegation list in the database -/
 def decAcct (P : Prim) (db : Db) (b : Bytes) : Option Acct :=
   match dec b with
-  | some (.list [n, bal, root, ch, dbal, dh]) => do
-    let root ← pB root
-    let ch ← pB ch
-    let dh ← pB dh
-    let storage ← if root = P.root [] then some [] else aget db.storT root
-    let code ← if ch = P.H [] then some [] else aget db.blobs ch
-    let dlgs ← if dh = [] then some [] else (aget db.blobs dh).bind (fun bl => (dec bl).bind bytesListOfItem)
-    some { nonce := ← pN n, balance := ← pN bal, code := code, storage := storage, delBal := ← pN dbal, dlgs := dlgs }
+  | some (.list [n, bal, root, ch, dbal, dh]) =>
+    (pB root).bind fun root => (pB ch).bind fun ch => (pB dh).bind fun dh =>
+    (loadStorage P db root).bind fun storage => (loadCode P db ch).bind fun code => (loadDlgs db dh).bind fun dlgs =>
+    (pN n).bind fun n => (pN bal).bind fun bal => (pN dbal).bind fun dbal =>
+    some { nonce := n, balance := bal, code := code, storage := storage, delBal := dbal, dlgs := dlgs }
   | _ => none
 
 def decVal (b : Bytes) : Option Val := (dec b).bind valOfItem
@@ -569,15 +571,19 @@ def commit (P : Prim) (del : Bool) (s : St) : St :=
   let db := { db with acctT := aput db.acctT r.root s.t.acct, valT := aput db.valT r.valRoot s.t.val, stkT := aput db.stkT r.stakingRoot s.t.stk }
   { s with db := db, acctU := [] }
 
+def loadList (b : Bytes) : Option (List Bytes) := if b = [] then some [] else (dec b).bind bytesListOfItem
+def loadStat (b : Bytes) : Option Stat := if b = [] then some {} else (dec b).bind statOfItem
+def loadQueue (b : Bytes) : Option (List WRec) := if b = [] then some [] else (dec b).bind queueOfItem
+
 /-- state.New: open the three tries by root, load index, statistics, (lazily in Go) queue and pending relationships -/
-def openSt (db : Db) (r : Roots) : Option St := do
-  let acct ← aget db.acctT r.root
-  let val ← aget db.valT r.valRoot
-  let stk ← aget db.stkT r.stakingRoot
-  let index ← if val.index = [] then some [] else (dec val.index).bind bytesListOfItem
-  let stat ← if val.stat = [] then some {} else (dec val.stat).bind statOfItem
-  let queue ← if val.queue = [] then some [] else (dec val.queue).bind queueOfItem
-  let relats ← if stk.relats = [] then some [] else (dec stk.relats).bind bytesListOfItem
+def openSt (db : Db) (r : Roots) : Option St :=
+  (aget db.acctT r.root).bind fun acct =>
+  (aget db.valT r.valRoot).bind fun val =>
+  (aget db.stkT r.stakingRoot).bind fun stk =>
+  (loadList val.index).bind fun index =>
+  (loadStat val.stat).bind fun stat =>
+  (loadQueue val.queue).bind fun queue =>
+  (loadList stk.relats).bind fun relats =>
   some { db := db, t := { acct := acct, val := val, stk := stk }, index := index, stat := stat, queue := queue, relats := relats }
 
 /-- StateDB.Copy under value semantics -/
@@ -677,8 +683,8 @@ structure Obs where
   relats : List Bytes
   deriving Repr, BEq, DecidableEq
 
-def acctKeys (s : St) : List Bytes := sortedKeys (s.accts.map (·.1) ++ s.t.acct.map (·.1))
-def recKeys (s : St) : List Bytes := sortedKeys (s.recs.map (·.1) ++ s.t.stk.recs.map (·.1))
+def acctKeys (s : St) : List Bytes := sortKeys (s.accts.map (·.1) ++ s.t.acct.map (·.1))
+def recKeys (s : St) : List Bytes := sortKeys (s.recs.map (·.1) ++ s.t.stk.recs.map (·.1))
 
 def obs (P : Prim) (s : St) : Obs :=
   { accts := (acctKeys s).filterMap (fun a => match getAcct P s a with
